@@ -871,6 +871,17 @@ def oracle_c09(sc, res):
                 vios.append(Violation("C09", "service-not-started", {"engine": sc["engine"]},
                                       f"{node.id} activation {a.idx} was active across a quiescent point but {name} was never called"))
     # completion events
+    _svc_all0 = (sc.get("logic") or {}).get("services") or {}
+    machine_invoke_ids = set()
+
+    def _walk_mi(c):
+        iv = c.get("invoke")
+        for one in (iv if isinstance(iv, list) else [iv] if iv else []):
+            if isinstance(one, dict) and (_svc_all0.get(one.get("src")) or {}).get("k") == "machine":
+                machine_invoke_ids.add(one.get("id"))
+        for ch in (c.get("states") or {}).values():
+            _walk_mi(ch)
+    _walk_mi(sc["machine"])
     handled = {}  # (state, act idx, invoke id) -> count of handler transitions
     stale_keys = set()
     for r in w.trans:
@@ -881,6 +892,8 @@ def oracle_c09(sc, res):
         if rv is None:
             continue
         ident = _svc_identity(rv[7])
+        if t.invoke_id in machine_invoke_ids:
+            ident = None   # data of an invoked MACHINE's completion is the child's context / failure, not one of our unique values
         S = t.source.id
         a = w.activation_at(S, rv[SEQ])
         if a is None:
@@ -973,6 +986,56 @@ def oracle_c09(sc, res):
     _walk_inv(sc["machine"], sc["machine"]["id"])
     if minv:
         root_id = sc["machine"]["id"]
+        # completion of an invoked machine: a child that ended in the error status is reported through error.platform.<id>
+        # (never through done.invoke.<id>), one that reached its final state through done.invoke.<id>; a failure is reported
+        child_failed = {}     # child interpreter id -> seq of its on_error hook
+        for r in res.trace:
+            if r[K] == "error-hook" and r[4] != root_id and r[4] not in child_failed:
+                child_failed[r[4]] = r[SEQ]
+        for cid_, fseq in child_failed.items():
+            owners = [(sid, inv_id) for sid, inv_id, src in minv if cid_ == f"{root_id}:{inv_id}" or cid_.startswith(f"{root_id}:{src}:")]
+            if len(owners) != 1:
+                continue
+            sid, inv_id = owners[0]
+            # only judged when the invoking state stays active, in one activation, until the run is quiet again
+            later_exit = any(r[K] == "act" and r[4] == root_id and r[5] == "ex." + sid and r[SEQ] > fseq for r in res.trace)
+            later_cut = has_log(w, "chained self-raised")
+            fin_ = w.final_obs("final")
+            if later_exit or later_cut or fin_ is None or sid not in fin_["cfg"]:
+                done_tr = [r for r in res.trace if r[K] == "trans" and r[4] == root_id and r[7] == f"done.invoke.{inv_id}" and r[SEQ] > fseq]
+                # even then a failed child must not be reported as done before the state was left
+                first_exit = min([r[SEQ] for r in res.trace if r[K] == "act" and r[4] == root_id and r[5] == "ex." + sid and r[SEQ] > fseq] or [10 ** 18])
+                if any(t_[SEQ] < first_exit for t_ in done_tr) and not later_cut:
+                    vios.append(Violation("C09", "failed-child-machine-reported-done", {"engine": sc["engine"]},
+                                          f"child machine {cid_} ended in error but {sid} took its onDone (done.invoke.{inv_id})"))
+                    break
+                continue
+            got_err = any(r[K] == "recv" and r[4] == root_id and r[5] == f"error.platform.{inv_id}" and r[SEQ] > fseq for r in res.trace)
+            got_done = any(r[K] == "trans" and r[4] == root_id and r[7] == f"done.invoke.{inv_id}" and r[SEQ] > fseq for r in res.trace)
+            if got_done:
+                vios.append(Violation("C09", "failed-child-machine-reported-done", {"engine": sc["engine"]},
+                                      f"child machine {cid_} ended in error but {sid} took its onDone (done.invoke.{inv_id})"))
+                break
+            declares_on_error = False
+
+            def _find_inv(c, cur):
+                nonlocal declares_on_error
+                if cur == sid:
+                    iv = c.get("invoke")
+                    for one in (iv if isinstance(iv, list) else [iv] if iv else []):
+                        if isinstance(one, dict) and one.get("id") == inv_id and one.get("onError"):
+                            declares_on_error = True
+                for k_, ch in (c.get("states") or {}).items():
+                    _find_inv(ch, f"{cur}.{k_}")
+            _find_inv(sc["machine"], root_id)
+            if got_err and not declares_on_error and fin_["status"] == "running":
+                vios.append(Violation("C09", "unhandled-failure-not-error-status", {"engine": sc["engine"], "status": fin_["status"], "src": "machine"},
+                                      f"child machine {cid_} failed, {sid} declares no onError, but status is {fin_['status']}"))
+                break
+            if not got_err and fin_["status"] == "running":
+                vios.append(Violation("C09", "child-machine-failure-not-reported", {"engine": sc["engine"]},
+                                      f"child machine {cid_} ended in error while {sid} stayed active, but no error.platform.{inv_id} was delivered"))
+                break
         for o_ in w.obs:
             if o_[5] != root_id or not isinstance(o_[6], dict) or o_[6].get("status") != "running":
                 continue
@@ -1347,6 +1410,22 @@ def normalise_trace(trace):
     return out
 
 
+_UUID_RE = None
+
+
+def _canon_ids(norm):
+    """Replace uuid4-shaped tokens by the ordinal of their first appearance: generated identifiers may differ between runs."""
+    global _UUID_RE
+    import re
+    if _UUID_RE is None:
+        _UUID_RE = re.compile(r"[0-9a-f]{8}-[0-9a-f]{4}-[0-9a-f]{4}-[0-9a-f]{4}-[0-9a-f]{12}")
+    seen = {}
+
+    def sub(mo):
+        return seen.setdefault(mo.group(0), f"<id{len(seen)}>")
+    return [_UUID_RE.sub(sub, repr(x)) for x in norm]
+
+
 def run_c16(sc):
     from .execs import execute
     import copy as _copy
@@ -1371,6 +1450,8 @@ def run_c16(sc):
         if res.meta.get("abort"):
             return results, []
         norm = normalise_trace(res.trace)
+        if sc.get("uuid_mode") == "hex":
+            norm = [(x,) for x in _canon_ids(norm)]
         if base is None:
             base = norm
             continue
@@ -1384,13 +1465,13 @@ def run_c16(sc):
             hist = False
             par = False
             for x in reversed(base[:i + 1]):
-                if x[0] == "trans":
+                if len(x) > 2 and x[0] == "trans":
                     t = m.trans.get(x[2])
                     if t is not None and t.target is not None:
                         hist = t.target.kind == "history"
                     break
-            kind = (a or b)[0]
-            names = sorted([str((a or ("",) * 3)[2]), str((b or ("",) * 3)[2])])
+            kind = (a or b)[0] if len(a or b) > 1 else "record"
+            names = sorted([str((a or ("",) * 3)[2]), str((b or ("",) * 3)[2])]) if len(a or b) > 2 else ["", ""]
             role = "entry" if all(n.startswith("en.") for n in names) else ("exit" if all(n.startswith("ex.") for n in names) else "other")
             vios.append(Violation("C16", "nondeterministic-trace",
                                   {"engine": sc["engine"], "record": kind, "role": role},
